@@ -5,6 +5,7 @@ package main
 
 import (
 	"fmt"
+	"strings"
 	"testing"
 
 	"pgregory.net/rapid"
@@ -16,6 +17,8 @@ func c02Profile() lang.Profile {
 	p := lang.FullProfile()
 	p.IllTyped = 3
 	p.StrCompare = true
+	p.Moods = true
+	p.RareIndexSet = true
 	p.Exclude = knownSet()
 	if p.Exclude["c02.compiled-cannot-call-user-functions"] {
 		p.Funcs = false
@@ -57,6 +60,7 @@ func runC02(c lang.Case) evid.Outcome {
 	}
 	defer itp.shutdown()
 	labels := append([]string{}, c.Events...)
+	ref := lang.NewEvaluator(&c.Prog)
 	if comp.useCompiler {
 		labels = append(labels, "mode:compiled")
 	} else {
@@ -72,7 +76,12 @@ func runC02(c lang.Case) evid.Outcome {
 		}
 		na, nb := normJSON(a.Body), normJSON(b.Body)
 		if a.Status != b.Status || na != nb {
-			return evid.Failf(classifyC02(c, a, b), "%s %s%s body=%s\n  compiled:    %d %s\n  interpreted: %d %s\n--- source ---\n%s",
+			key := classifyC02(c, a, b)
+			if a.Status >= 500 && b.Status < 500 && !strings.HasPrefix(key, "c02.compiled-cannot") && ref.RunRoute(rq).MissingField > 0 {
+				// the reference evaluation of this very request reads a field its object does not have
+				key = "c02.missing-field-null-vs-error"
+			}
+			return evid.Failf(key, "%s %s%s body=%s\n  compiled:    %d %s\n  interpreted: %d %s\n--- source ---\n%s",
 				rt.Method, rq.Path, rq.QueryString(), string(rq.Body), a.Status, na, b.Status, nb, src)
 		}
 		labels = append(labels, fmt.Sprintf("status:%dxx", a.Status/100))
@@ -168,6 +177,38 @@ func patLeak(c lang.Case) bool {
 		}
 	})
 	leak := false
+	// an arm nested in another arm binds the same name again: the inner binding overwrites the outer one
+	var nested func(n *lang.Node, bound map[string]bool)
+	nested = func(n *lang.Node, bound map[string]bool) {
+		if n == nil {
+			return
+		}
+		if n.K == "mcase" {
+			mine := map[string]bool{}
+			n.C[0].Walk(func(p *lang.Node) {
+				if p.K == "pvar" || (p.K == "parr" && p.S != "") || (p.K == "pfield" && len(p.C) == 0) {
+					mine[p.S] = true
+				}
+			})
+			nb := map[string]bool{}
+			for k := range bound {
+				nb[k] = true
+			}
+			for k := range mine {
+				if bound[k] {
+					leak = true
+				}
+				nb[k] = true
+			}
+			bound = nb
+		}
+		for _, ch := range n.C {
+			nested(ch, bound)
+		}
+	}
+	for i := range c.Prog.Routes {
+		nested(c.Prog.Routes[i].Body, map[string]bool{})
+	}
 	var walk func(n *lang.Node, inMatch bool)
 	walk = func(n *lang.Node, inMatch bool) {
 		if n == nil {
